@@ -579,7 +579,7 @@ class C10(SeqCheck):
     oracle_entry = None
     overlay = {"vnet/verif_export.go": "vnet/verif_export.go", "udp/verif_export.go": "udp/verif_export.go"}
     quick_n = 3000
-    thorough_n = 30000   # about 4.5 histories per second and shard: 2500 per shard stay well inside the harness timeout
+    thorough_n = 18000   # about 4.5 histories per second and shard: 1500 per shard stay well inside the harness timeout, also on a busy machine
     shards = 12
     design_ref = "4 (C10)"
     technique = "Coq proof (closed form of read/deadline interaction: timeout iff a non-zero deadline has passed, persistence, release at the deadline, reset) + exact virtual-time differential check on five connection types"
